@@ -263,7 +263,18 @@ def run_property(pid, tier, module, seed=0):
     # an obligation that went undecided (the code left the supported subset, or the solver gave up) is tried natively on its OWN
     # configuration first (bounded: replay request + neighbourhood search), then the property's stand-in grid runs as well
     tried = 0
+    # the native budget is spread over the different KINDS of undecided obligations (owner property, replay scenario, special
+    # structure such as concrete small extents) round-robin, so that many undecided obligations of one kind cannot starve another
+    groups = {}
     for o in undecided:
+        rp = o.get("replay") or {}
+        groups.setdefault((_owner(pid, o), rp.get("scenario"), rp.get("N") is not None, rp.get("reduce")), []).append(o)
+    ordered = []
+    while any(groups.values()):
+        for k_ in list(groups):
+            if groups[k_]:
+                ordered.append(groups[k_].pop(0))
+    for o in ordered:
         if o.get("replay") is None or tried >= 2 * MAX_REPLAYS or len(violations) >= MAX_REPLAYS:
             continue
         tried += 1
